@@ -121,10 +121,21 @@ def gen_layout(rng, idx):
         if nm not in used and nm[:-1] not in used:
             used.add(nm)
             dirs.append((nm, ['dir']))
+    # documents stored under names that do NOT end in .dae: never selected automatically, but
+    # loadable by name (zip_filename=) and, on disk, by path - the same bytes, the same model
+    odd = []
+    for n, k in docs:
+        if rng.random() < 0.6:
+            base = n.split('/')[:-1]
+            nm = '/'.join(base + [rng.choice(['duck.xml', 'duck.dae.orig', 'duck', 'doc.kml.xml', 'scene.dae.bak',
+                                              'model.DAE.txt', 'Duck.Dae_'])])
+            if nm not in used:
+                used.add(nm)
+                odd.append((nm, k))
     # byte-level form of the archive (whatever zipfile.ZipFile opens is an archive)
     zip_variant = rng.choice(['plain', 'plain', 'prepended', 'prepended-deflated', 'comment', 'deflated', 'mixed', 'zip64'])
     # archive order: decoys in every position relative to the documents
-    body = docs + aux + others + dirs
+    body = docs + odd + aux + others + dirs
     rng.shuffle(body)
     mode = rng.choice(['first', 'last', 'mixed', 'between'])
     if mode == 'first':
@@ -135,8 +146,19 @@ def gen_layout(rng, idx):
         members = list(body)
         for dcy in decoys:
             members.insert(rng.randint(0, len(members)), dcy)
-    if rng.random() < 0.04:
-        members = []          # a member-less archive (end-of-central-directory record only)
+    # degenerate, document-less archives: no member at all (the 22-byte end-of-central-directory
+    # record), auxiliary files only, directory entries only, resource-fork decoys only
+    degenerate = None
+    if rng.random() < 0.12:
+        degenerate = rng.choice(['empty', 'empty', 'textures', 'dirs', 'decoys'])
+        if degenerate == 'empty':
+            members = []
+        elif degenerate == 'textures':
+            members = [m for m in members if m[1][0] == 'aux' and not m[0].lower().endswith('.dae')]
+        elif degenerate == 'dirs':
+            members = [('tex/', ['dir']), ('sub/deep/', ['dir']), ('__MACOSX/', ['dir'])][:rng.randint(1, 3)]
+        else:
+            members = list(decoys) or [m for m in members if m[1][0] == 'aux' and not m[0].lower().endswith('.dae')]
     # image paths, of every form, relative to a document directory, hitting and missing
     images = []
     targets = [a[0] for a in aux] or ['x.png']
@@ -181,7 +203,7 @@ def gen_layout(rng, idx):
                        'zipped.dae', 'Zipped.DAE', 'pk/zipped.Dae', 'arch.dae.zip', 'arch.bin'])
     while zrel in used:
         zrel = 'z' + zrel
-    disk = [(n, k) for n, k in docs + aux + others if n != zrel]
+    disk = [(n, k) for n, k in docs + odd + aux + others if n != zrel]
     # ... and so is a plain document's: copies of the documents under archive-like and other names
     renamed = []
     for n, k in docs:
@@ -238,7 +260,7 @@ def gen_layout(rng, idx):
             ld['write_first'] = rng.choice(['path', 'path', 'abspath', 'fileobj'])
         loads.append(ld)
 
-    zfs = [None] + [d[0] for d in docs]
+    zfs = [None] + [d[0] for d in docs] + [d[0] for d in odd]
     if decoys:
         zfs.append(decoys[0][0])
     zfs += [rng.choice(['nothere.dae', 'A/doc.dae', 'doc.DAE']), '']
@@ -255,7 +277,7 @@ def gen_layout(rng, idx):
     add('abspath', zrel, None, False)
     add('abspath', zrel, rng.choice(zfs), rng.random() < 0.3)
     linked_docs = [(n, k) for n, k in virtual if k[0] == 'doc']
-    for n, k in docs + renamed + linked_docs:
+    for n, k in docs + odd + renamed + linked_docs:
         for src in ('path', 'bytes', 'file', 'abspath'):
             for loader in (False, True):
                 if loader and rng.random() < 0.5:
@@ -263,7 +285,7 @@ def gen_layout(rng, idx):
                 add(src, n, rng.choice([None, None, n, 'zz.dae']), loader, ignore=rng.random() < 0.3)
     return {'members': [list(m) for m in members], 'disk': [list(d) for d in disk], 'images': images,
             'user_map': user_map, 'loads': loads, 'ambiguous_selection': ambiguous, 'zip': zrel,
-            'zip_variant': zip_variant, 'links': [list(l) for l in links], 'disk_virtual': [list(v) for v in virtual]}
+            'zip_variant': zip_variant, 'degenerate': degenerate, 'links': [list(l) for l in links], 'disk_virtual': [list(v) for v in virtual]}
 
 
 # ------------------------------------------------------------------ encoding
@@ -442,7 +464,7 @@ def run(ctx):
             break
     for c, r in zip(sel, selres):
         if c['zip_filename'] is None and not any(n.lower().endswith('.dae') for n in c['names']):
-            if r['code'] == 0 or not 1 <= r['code'] <= 6:
+            if r['code'] != 1:
                 failures.append({'signature': 'C16:no-document:zip-select', 'clause': 'no-document',
                                  'what': 'archive with no .dae member: code %d, member %r' % (r['code'], r['member']),
                                  'input': {'select': c}, 'detail': r})
@@ -460,7 +482,7 @@ def run(ctx):
     # distribution
     dist = {'loads': 0, 'by_source': {}, 'with_user_loader': 0, 'with_zip_filename': 0, 'ignore': 0,
             'load_outcomes': {}, 'image_outcomes': {}, 'decoy_first': 0, 'only_decoys': 0, 'no_dae': 0,
-            'several_docs': 0, 'layouts_with_symlinks': 0, 'loads_through_symlinks': 0, 'loader_forms': {}, 'stream_offsets': 0, 'write_before_data': {}, 'zip_variants': {}, 'memberless_archives': 0, 'aux_forms': {}, 'user_answers': {}, 'uppercase_ext_selected': 0, 'archive_file_names': {}, 'plain_documents_under_other_names': 0, 'depth_of_selected': {}, 'image_path_forms': {}}
+            'several_docs': 0, 'degenerate_archives': {}, 'documents_under_non_dae_names': 0, 'loads_by_non_dae_name': 0, 'layouts_with_symlinks': 0, 'loads_through_symlinks': 0, 'loader_forms': {}, 'stream_offsets': 0, 'write_before_data': {}, 'zip_variants': {}, 'memberless_archives': 0, 'aux_forms': {}, 'user_answers': {}, 'uppercase_ext_selected': 0, 'archive_file_names': {}, 'plain_documents_under_other_names': 0, 'depth_of_selected': {}, 'image_path_forms': {}}
     seen_h = set()
     for c, r in zip(cases, results):
         seen_h.add(core.canon_hash([c['members'], c['images'], c['loads']]))
@@ -473,6 +495,11 @@ def run(ctx):
         if not dae:
             dist['no_dae'] += 1
         dist['layouts_with_symlinks'] += bool(c.get('links'))
+        if c.get('degenerate'):
+            dist['degenerate_archives'][c['degenerate']] = dist['degenerate_archives'].get(c['degenerate'], 0) + 1
+        oddn = {m[0] for m in c['members'] if m[1][0] == 'doc' and not m[0].lower().endswith('.dae')}
+        dist['documents_under_non_dae_names'] += len(oddn)
+        dist['loads_by_non_dae_name'] += sum(1 for ld in c['loads'] if ld['target'] == c['zip'] and ld['zip_filename'] in oddn)
         vnames = {v[0] for v in c.get('disk_virtual', [])}
         dist['loads_through_symlinks'] += sum(1 for ld in c['loads'] if ld['target'] in vnames)
         dist['zip_variants'][c.get('zip_variant')] = dist['zip_variants'].get(c.get('zip_variant'), 0) + 1
@@ -563,7 +590,7 @@ def replay(ctx, body):
         print(json.dumps(r))
         c = inp['select']
         badsel = c['zip_filename'] is None and not any(n.lower().endswith('.dae') for n in c['names']) and \
-            (r['code'] == 0 or not 1 <= r['code'] <= 6)
+            r['code'] != 1
         if badsel or r.get('crash'):
             print('VIOLATION property=C16 replay=%s' % body.get('replay_cmd', '').split()[-1])
             return 1
